@@ -1,9 +1,9 @@
 SPECIFICATION Spec
 CONSTANTS
-  NK = 4
-  Vals = {1, 2}
-  Hs = {1, 2, 3, 4}
-  ZeroStart = TRUE
+  NK = 2
+  Vals = {1}
+  Hs = {1, 32}
+  ZeroStart = FALSE
 INVARIANT LevelOK
 PROPERTY RefinesMap
 VIEW View
